@@ -170,6 +170,19 @@ func (e *C04) Run(c *core.Ctx, idx int) {
 		calls = append(calls, call{"imagehash.NewPHash*", func() string { return hashObs(img) }})
 	} else {
 		data, d, fi := relInput(c, p, idx)
+		if idx%25 == 3 {
+			// a file that ends inside the 24 bytes the sniffers look at, starting like an ISOBMFF
+			// file (a caller that hands over the first box only): whatever the missing bytes would
+			// decide must not be decided by what an earlier call left behind
+			full := []byte("\x00\x00\x00\x18ftypmif1\x00\x00\x00\x00mif1heic")
+			copy(full[8:], r.PickStr("mif1", "msf1", "heic", "avif"))
+			n := r.Range(14, 23)
+			data = append([]byte(nil), full[:n]...)
+			if n >= 4 && r.Bool() {
+				data[3] = byte(n) // the box says it is complete
+			}
+			d, fi = fmt.Sprintf("short ftyp %x", data), -2
+		}
 		desc = d
 		for _, ei := range natEntries(p, fi, data) {
 			ent := p.entries[ei]
